@@ -16,18 +16,28 @@ Local Open Scope Z_scope.
 
 Record dspec := DSpec { ds_states : list state; (* prefix datasets, oldest first; never empty *)
                         ds_conns : gmap Z Z;
-                        ds_prev : nat (* number of acknowledged writes before the last command *) }.
-Global Instance eta_dspec : Settable _ := settable! DSpec <ds_states; ds_conns; ds_prev>.
+                        ds_prev : nat; (* number of acknowledged writes before the last command *)
+                        ds_slack : nat (* records the log may hold fewer than [ds_states] says: after a restart
+                                          recognised as prefix [j] while an older prefix [j0] shows the same view,
+                                          the log holds between [j0] and [j] records; the history continues from
+                                          [j] (same view) and every later requirement is lowered by [j - j0] *) }.
+Global Instance eta_dspec : Settable _ := settable! DSpec <ds_states; ds_conns; ds_prev; ds_slack>.
 Definition ds_count (d : dspec) : nat := (length (ds_states d) - 1)%nat.
 
 Definition ds_cur (d : dspec) (now : Z) : state := List.last (ds_states d) (init_state now).
 
-Definition judge (tag : string) (d : dspec) (acked : string) (obs : string) : option nat * string :=
+Definition requirement (d : dspec) (acked : string) : option Z :=
   let req := if String.eqb acked "a" then Some (Z.of_nat (ds_prev d))
              else if String.eqb acked "b" then Some (Z.of_nat (ds_count d))
              else if String.eqb acked "c" then Some (Z.of_nat (ds_count d - 1))
              else parse_int acked in
-  match req, unhex_arg obs with
+  match req with
+  | Some a => Some (Z.max 0 (a - Z.of_nat (ds_slack d)))
+  | None => None
+  end.
+
+Definition judge (tag : string) (d : dspec) (acked : string) (obs : string) : option nat * string :=
+  match requirement d acked, unhex_arg obs with
   | Some a, Some o =>
       match find_prefix (ds_states d) 0 (Z.to_nat a) o with
       | Some j => (Some j, tag +:+ " " +:+ show_Z (Z.of_nat j))
@@ -66,7 +76,13 @@ Fixpoint spec02_events (d : dspec) (lines : list string) : list string :=
       | ["O"; acked; obs] =>
           let '(j, out) := judge "O" d acked obs in
           match j with
-          | Some j' => out :: spec02_events (d <| ds_states := firstn (S j') (ds_states d) |> <| ds_conns := ∅ |> <| ds_prev := j' |>) r
+          | Some j' =>
+              let j0 := match requirement d acked, unhex_arg obs with
+                        | Some a, Some o => default j' (find_prefix_oldest (ds_states d) 0 (Z.to_nat a) o)
+                        | _, _ => j'
+                        end in
+              out :: spec02_events (d <| ds_states := firstn (S j') (ds_states d) |> <| ds_conns := ∅ |> <| ds_prev := j' |>
+                                      <| ds_slack := (j' - j0)%nat |>) r
           | None => out :: spec02_events d r
           end
       | _ => spec02_events d r
@@ -80,7 +96,7 @@ Definition run_spec02 (lines : list string) : list string :=
       match split_words hdr with
       | "S" :: id :: cfg =>
           let w := fold_left apply_cfg cfg (init_world default_now) in
-          ("S " +:+ id) :: spec02_events (DSpec [w_st w] ∅ 0) body ++ ["E"]
+          ("S " +:+ id) :: spec02_events (DSpec [w_st w] ∅ 0 0) body ++ ["E"]
       | _ => ["BAD " +:+ hdr]
       end
   end.
